@@ -351,12 +351,14 @@ func H_ParseChain() {
 			buf = append(buf, "a:[1 TO 5]^2"...)
 		case 7:
 			buf = append(buf, 'a', ':')
+		case 8:
+			buf = append(buf, 'a', ':', '(')
 		}
 	}
 	switch shape {
 	case 3, 7:
 		buf = append(buf, 'x')
-	case 4:
+	case 4, 8:
 		buf = append(buf, 'x')
 		for i := 0; i < n; i++ {
 			buf = append(buf, ')')
@@ -391,8 +393,12 @@ func H_LayoutTokens() {
 	k := rtParam("K")
 	df := rtParam("DF")
 	var toks []dtok
-	var spaced, compact, wide, glued []byte
+	var spaced, compact, wide, glued, tight, lower []byte
 	wide = append(wide, '\n', ' ')
+	// a quoted phrase or a regexp carries its own delimiters: no space is needed next to it
+	delimited := func(t dtok) bool {
+		return t.kind == tkTerm && len(t.raw) > 0 && (t.raw[0] == '"' || t.raw[0] == '\'' || t.raw[0] == '/')
+	}
 	shapes := narrowShapes
 	if rtParam("SHAPES") == 1 {
 		shapes = reducedShapes
@@ -412,6 +418,9 @@ func H_LayoutTokens() {
 			if !glue {
 				compact = append(compact, ' ')
 			}
+			if !glue && !delimited(prev) && !delimited(t) {
+				tight = append(tight, ' ')
+			}
 			// a prefix - (or +) may be glued to a following term that does not start with a digit
 			prevIsPrefix := prev.kind == tkSym && (prev.sym == '-' || prev.sym == '+')
 			startsWithDigit := t.kind == tkTerm && (t.tv == tvInt || t.tv == tvFloat)
@@ -419,9 +428,20 @@ func H_LayoutTokens() {
 				glued = append(glued, ' ')
 			}
 		}
+		if i > 0 {
+			lower = append(lower, ' ')
+		}
+		if t.kind == tkAnd || t.kind == tkOr || t.kind == tkNot || t.kind == tkTo {
+			for _, c := range b { // the keyword in lower case, wherever it stands
+				lower = append(lower, c+32)
+			}
+		} else {
+			lower = append(lower, b...)
+		}
 		spaced = append(spaced, b...)
 		compact = append(compact, b...)
 		glued = append(glued, b...)
+		tight = append(tight, b...)
 		wide = append(wide, b...)
 		toks = append(toks, t)
 	}
@@ -433,6 +453,12 @@ func H_LayoutTokens() {
 	e3, err3 := parseOpt(string(wide), df)
 	e4, err4 := parseOpt(string(glued), df)
 	rtObserve("glued", string(glued))
+	e5, err5 := parseOpt(string(tight), df)
+	rtObserve("tight", string(tight))
+	rtAssert("tight-same-outcome", (err1 == nil) == (err5 == nil))
+	e6, err6 := parseOpt(string(lower), df)
+	rtObserve("lower", string(lower))
+	rtAssert("case-same-outcome", (err1 == nil) == (err6 == nil))
 	rtAssert("glued-same-outcome", (err1 == nil) == (err4 == nil))
 	rtAssert("compact-same-outcome", (err1 == nil) == (err2 == nil))
 	rtAssert("wide-same-outcome", (err1 == nil) == (err3 == nil))
@@ -449,6 +475,12 @@ func H_LayoutTokens() {
 	}
 	if err4 == nil && e4 != nil {
 		rtAssert("glued-same-tree", g1 == fmt.Sprintf("%#v", e4))
+	}
+	if err5 == nil && e5 != nil {
+		rtAssert("tight-same-tree", g1 == fmt.Sprintf("%#v", e5))
+	}
+	if err6 == nil && e6 != nil {
+		rtAssert("case-same-tree", g1 == fmt.Sprintf("%#v", e6))
 	}
 	rtReach("end")
 }
